@@ -79,7 +79,9 @@ func C13(c *Ctx) {
 		"(ii) in the MsgServer method every instruction that can lead to a store write/delete or bank movement is guarded (cut-reachability over the CFG, looking through bool/error helpers) by the entitlement predicate over that same field: whitelist membership, membership in params.EntSigners, equality with the stored Owner of the registration named in the message, or equality of req.Authority with the keeper authority; " +
 		"for streams, every access to the stream section and every bank transfer reachable from the handler is instantiated up the call chain and must use key (addr(msg.Receiver), addr(msg.Sender)) and pay/debit the party the operation belongs to; " +
 		"(iii) A5 wiring: the four custom keepers receive NewModuleAddress(gov) as authority and store it unchanged; SetPubKey/SigVerification/IncrementSequence decorators are in the ante chain; legacy NewHandler closures only forward to the MsgServer. Quantifies over all paths and call sites; signature cryptography is trusted."
-	r.Rules = []string{"A7.getsigners", "A2.entitlement-guard", "A7.stream-roles", "A5.authority-wiring", "A5.sig-decorators", "A3.decorator-continues", "A1.legacy-handler", "A6.entitlement-from-state"}
+	r.Rules = []string{"A7.getsigners", "A2.entitlement-guard", "A7.stream-roles", "A5.authority-wiring", "A5.sig-decorators", "A3.decorator-continues", "A1.legacy-handler", "A6.entitlement-from-state", "A2.whitelist-action"}
+	// the purchaser's entitlement is its whitelist entry: the entry changed by a whitelist message is the named address's
+	whitelistRules(c)
 	r.Trusted = []string{"cosmos-sdk x/auth ante: SigVerificationDecorator verifies GetSigners() signatures", "baseapp message routing to registered MsgServer"}
 	r.NotDecided = []string{"signature verification itself", "state may change between check and use within one handler (ignored)"}
 
@@ -499,7 +501,7 @@ func authorityParamIndex(c *Ctx, fullName string) int {
 // continuation parameter.
 func decoratorsContinue(c *Ctx) {
 	w, r := c.W, c.R
-	n := 0
+	n, nArgs := 0, 0
 	for _, dec := range w.RootSet("ANTE") {
 		if len(dec.Params) == 0 {
 			continue
@@ -519,7 +521,35 @@ func decoratorsContinue(c *Ctx) {
 			where = pos(c, bad[0])
 		}
 		r.Require(len(bad) == 0, "A3.decorator-continues", fn(dec), where, "every successful path of a chain decorator hands the transaction on to next() (signature verification runs later in the chain)", fmt.Sprintf("%d success return(s) end the chain without calling next()", len(bad)))
+		// ... as it was handed in: the transaction and the simulate flag passed to next() are the decorator's own (the later
+		// decorators skip signature verification and the pubkey/address match when told the run is a simulation, and verify
+		// the signatures over the transaction they are given)
+		var txP, simP *ssa.Parameter
+		for _, p := range dec.Params {
+			switch {
+			case strings.HasSuffix(p.Type().String(), "cosmos-sdk/types.Tx"):
+				txP = p
+			case p.Type().String() == "bool":
+				simP = p
+			}
+		}
+		for _, b := range dec.Blocks {
+			for _, in := range b.Instrs {
+				call, ok := in.(ssa.CallInstruction)
+				if !ok || !isNext(in) || len(call.Common().Args) != 3 {
+					continue
+				}
+				nArgs++
+				a := call.Common().Args
+				okTx := txP == nil || a[1] == ssa.Value(txP)
+				okSim := simP == nil || a[2] == ssa.Value(simP)
+				r.Require(okTx && okSim, "A3.decorator-continues", fn(dec)+"|same-tx-and-mode", pos(c, in),
+					"a chain decorator hands on to next() the transaction and the simulate flag it was given",
+					fmt.Sprintf("next(ctx, %s, %s)", w.ExprOf(a[1]), w.ExprOf(a[2])))
+			}
+		}
 	}
+	r.Floor("next() calls of repo decorators judged for what they hand on", nArgs, 3)
 	r.Floor("repo decorators in the ante chain", n, 3)
 }
 
